@@ -201,6 +201,8 @@ class Hook:
                 return out
         if k == 'MCall' and not e.get('inrepo'):
             name = e.get('m')
+            if name == 'data':
+                raise sym.Unsupported('raw pointer into a buffer (%s) at %s' % (pp(e)[:60], e.get('loc')))
             if name in ('setConstant', 'setZero', 'setOnes', 'fill') and len(e.get('args', [])) <= 1:
                 vw = self.view(rd, e['obj'], st, ctx)
                 if vw is not None and len(vw) == 3:
